@@ -1388,8 +1388,23 @@ func resolveCell(v ssa.Value) (string, bool) {
 // ctxAware: in functions marked ctxaware a blocking channel operation needs a ctx.Done() alternative.
 // escapes: every blocking channel operation of a function with `escape <ch>` clauses offers a receive
 // on that channel (recvChans: the channels of the receive cases of the select; none for a bare operation)
-func (ex *Exec) escapes(st *State, fr *Frame, instr ssa.Instruction, what string, recvChans []string) {
+// inheritedFlags: a helper or closure executed in place, without flag clauses of its own, is part of
+// the function it runs in: that function's ctxaware / nonblocking / escape clauses apply to its
+// blocking operations too (their expressions are evaluated in that function's frame).
+func (ex *Exec) inheritedFlags(fr *Frame) (*FuncSpec, *Frame) {
 	sp := fr.spec
+	own := sp != nil && (sp.CtxAware != nil || sp.NonBlock != nil || len(sp.Escape) > 0)
+	if own || fr.top || ex.topFrame == nil || ex.topFrame == fr {
+		return sp, fr
+	}
+	if sp == nil || sp.Inline {
+		return ex.topFrame.spec, ex.topFrame
+	}
+	return sp, fr
+}
+
+func (ex *Exec) escapes(st *State, fr0 *Frame, instr ssa.Instruction, what string, recvChans []string) {
+	sp, fr := ex.inheritedFlags(fr0)
 	if sp == nil {
 		return
 	}
@@ -1403,15 +1418,15 @@ func (ex *Exec) escapes(st *State, fr *Frame, instr ssa.Instruction, what string
 		if len(alts) > 0 {
 			goal = smtOr(alts...)
 		}
-		ex.oblige(st, "escape", fmt.Sprintf("%s#escape@%s#%d.%s", fr.key, what, ex.ordinalOf(fr, instr, what), c.name()), c.Labels, goal, c, ex.posOf(instr))
+		ex.oblige(st, "escape", fmt.Sprintf("%s#escape@%s#%d.%s", fr0.key, what, ex.ordinalOf(fr0, instr, what), c.name()), c.Labels, goal, c, ex.posOf(instr))
 	}
 }
 
-func (ex *Exec) ctxAware(st *State, fr *Frame, instr ssa.Instruction, what string, ok bool, ctxs ...string) {
-	sp := fr.spec
+func (ex *Exec) ctxAware(st *State, fr0 *Frame, instr ssa.Instruction, what string, ok bool, ctxs ...string) {
+	sp, fr := ex.inheritedFlags(fr0)
 	if sp != nil && sp.NonBlock != nil {
 		// reached only for blocking operations (plain send/receive, select without default)
-		ex.oblige(st, "nonblocking", fmt.Sprintf("%s#nonblocking@%s#%d", fr.key, what, ex.ordinalOf(fr, instr, what)), sp.NonBlock.Labels, "false", sp.NonBlock, ex.posOf(instr))
+		ex.oblige(st, "nonblocking", fmt.Sprintf("%s#nonblocking@%s#%d", fr0.key, what, ex.ordinalOf(fr0, instr, what)), sp.NonBlock.Labels, "false", sp.NonBlock, ex.posOf(instr))
 	}
 	if sp == nil || sp.CtxAware == nil {
 		return
@@ -1432,7 +1447,7 @@ func (ex *Exec) ctxAware(st *State, fr *Frame, instr ssa.Instruction, what strin
 			goal = smtOr(alts...)
 		}
 	}
-	ex.oblige(st, "ctxaware", fmt.Sprintf("%s#ctxaware@%s#%d", fr.key, what, ex.ordinalOf(fr, instr, what)), sp.CtxAware.Labels, goal, sp.CtxAware, ex.posOf(instr))
+	ex.oblige(st, "ctxaware", fmt.Sprintf("%s#ctxaware@%s#%d", fr0.key, what, ex.ordinalOf(fr0, instr, what)), sp.CtxAware.Labels, goal, sp.CtxAware, ex.posOf(instr))
 }
 
 // fieldTypeOfArr: static type of the struct field behind a heap array name "H.<type key>.<path>".
